@@ -180,4 +180,271 @@ theorem _get_payload__io_eq_model (m data : PyVal) (doc : Doc) (isStr : Bool) (h
     obtain ⟨b, rfl⟩ := hdata
     exact _get_payload__io_eq_model_bytes fs _ _ v doc.payload (x9_isinstance_bytes_str b) hh hv hr
 
+/-! ## dicts with `str` keys against association lists -/
+
+theorem dictLookup_encKVs {β : Type} (enc : β → PyVal) (ks : List (Str × β)) (k : Str) :
+    dictLookup (encKVs enc ks) (.str k) = (aget k ks).map enc := by
+  induction ks with
+  | nil => rfl
+  | cons p r ih =>
+    obtain ⟨k', v⟩ := p
+    simp only [encKVs, List.map_cons, dictLookup, eq_str, aget] at ih ⊢
+    by_cases h : k' = k
+    · simp [h]
+    · have h1 : (k' == k) = false := by simpa using h
+      simp [h1, h, ih]
+
+/-- `d[k] = v` on the typed list: an existing key keeps its position, a new one goes last -/
+def setK {β : Type} (k : Str) (v : β) : List (Str × β) → List (Str × β)
+  | [] => [(k, v)]
+  | (k', x) :: r => if k' = k then (k', v) :: r else (k', x) :: setK k v r
+
+def eraseK {β : Type} (k : Str) : List (Str × β) → List (Str × β)
+  | [] => []
+  | (k', x) :: r => if k' = k then r else (k', x) :: eraseK k r
+
+theorem dictSet_encKVs {β : Type} (enc : β → PyVal) (ks : List (Str × β)) (k : Str) (v : β) :
+    dictSet (encKVs enc ks) (.str k) (enc v) = encKVs enc (setK k v ks) := by
+  induction ks with
+  | nil => rfl
+  | cons p r ih =>
+    obtain ⟨k', x⟩ := p
+    simp only [encKVs, List.map_cons, dictSet, eq_str, setK] at ih ⊢
+    by_cases h : k' = k
+    · simp [h]
+    · have h1 : (k' == k) = false := by simpa using h
+      simp [h1, h, ih]
+
+theorem dictErase_encKVs {β : Type} (enc : β → PyVal) (ks : List (Str × β)) (k : Str) :
+    dictErase (encKVs enc ks) (.str k) = encKVs enc (eraseK k ks) := by
+  induction ks with
+  | nil => rfl
+  | cons p r ih =>
+    obtain ⟨k', x⟩ := p
+    simp only [encKVs, List.map_cons, dictErase, eq_str, eraseK] at ih ⊢
+    by_cases h : k' = k
+    · simp [h]
+    · have h1 : (k' == k) = false := by simpa using h
+      simp [h1, h, ih]
+
+theorem aget_setK {β : Type} (k k' : Str) (v : β) (ks : List (Str × β)) :
+    aget k' (setK k v ks) = if k = k' then some v else aget k' ks := by
+  induction ks with
+  | nil => simp [setK, aget]
+  | cons p r ih =>
+    obtain ⟨k'', x⟩ := p
+    simp only [setK]
+    by_cases h : k'' = k
+    · subst h
+      by_cases h2 : k'' = k' <;> simp [aget, h2]
+    · simp only [h, if_false, aget, ih]
+      by_cases h2 : k'' = k'
+      · have : ¬ k = k' := fun e => h (h2.trans e.symm)
+        simp [h2, this]
+      · simp [h2]
+
+theorem mem_keys_setK {β : Type} (k k' : Str) (v : β) (ks : List (Str × β)) :
+    k' ∈ (setK k v ks).map (·.1) ↔ k' = k ∨ k' ∈ ks.map (·.1) := by
+  induction ks with
+  | nil => simp [setK]
+  | cons p r ih =>
+    obtain ⟨k'', x⟩ := p
+    simp only [setK]
+    by_cases h : k'' = k
+    · subst h; simp
+    · simp only [h, if_false, List.map_cons, List.mem_cons, ih]
+      constructor
+      · rintro (h1 | h1 | h1) <;> simp [h1]
+      · rintro (h1 | h1 | h1) <;> simp [h1]
+
+theorem nodup_setK {β : Type} (k : Str) (v : β) (ks : List (Str × β)) (h : (ks.map (·.1)).Nodup) :
+    ((setK k v ks).map (·.1)).Nodup := by
+  induction ks with
+  | nil => simp [setK]
+  | cons p r ih =>
+    obtain ⟨k'', x⟩ := p
+    simp only [List.map_cons, List.nodup_cons] at h
+    simp only [setK]
+    by_cases h1 : k'' = k
+    · simp only [h1, if_true, List.map_cons, List.nodup_cons]; rw [← h1]; exact h
+    · simp only [h1, if_false, List.map_cons, List.nodup_cons]
+      refine ⟨fun e => ?_, ih h.2⟩
+      rcases (mem_keys_setK k k'' v r).mp e with e | e
+      · exact h1 e
+      · exact h.1 e
+
+theorem mem_keys_eraseK {β : Type} (k k' : Str) (ks : List (Str × β)) (h : k' ∈ (eraseK k ks).map (·.1)) :
+    k' ∈ ks.map (·.1) := by
+  induction ks with
+  | nil => simp [eraseK] at h
+  | cons p r ih =>
+    obtain ⟨k'', x⟩ := p
+    simp only [eraseK] at h
+    by_cases h1 : k'' = k
+    · simp only [h1, if_true] at h; simp [h]
+    · simp only [h1, if_false, List.map_cons, List.mem_cons] at h ⊢
+      exact h.elim .inl (fun e => .inr (ih e))
+
+theorem nodup_eraseK {β : Type} (k : Str) (ks : List (Str × β)) (h : (ks.map (·.1)).Nodup) :
+    ((eraseK k ks).map (·.1)).Nodup := by
+  induction ks with
+  | nil => simp [eraseK]
+  | cons p r ih =>
+    obtain ⟨k'', x⟩ := p
+    simp only [List.map_cons, List.nodup_cons] at h
+    simp only [eraseK]
+    by_cases h1 : k'' = k
+    · simp only [h1, if_true]; exact h.2
+    · simp only [h1, if_false, List.map_cons, List.nodup_cons]
+      exact ⟨fun e => h.1 (mem_keys_eraseK k k'' r e), ih h.2⟩
+
+theorem aget_none_of_not_mem {β : Type} (k : Str) (ks : List (Str × β)) (h : k ∉ ks.map (·.1)) : aget k ks = none := by
+  induction ks with
+  | nil => rfl
+  | cons p r ih =>
+    obtain ⟨k'', x⟩ := p
+    simp only [List.map_cons, List.mem_cons, not_or] at h
+    have : ¬ k'' = k := fun e => h.1 e.symm
+    simp [aget, this, ih h.2]
+
+theorem aget_eraseK {β : Type} (k k' : Str) (ks : List (Str × β)) (h : (ks.map (·.1)).Nodup) :
+    aget k' (eraseK k ks) = if k = k' then none else aget k' ks := by
+  induction ks with
+  | nil => simp [eraseK, aget]
+  | cons p r ih =>
+    obtain ⟨k'', x⟩ := p
+    simp only [List.map_cons, List.nodup_cons] at h
+    simp only [eraseK]
+    by_cases h1 : k'' = k
+    · subst h1
+      by_cases h2 : k'' = k'
+      · subst h2; simp [aget_none_of_not_mem _ _ h.1]
+      · simp [aget, h2]
+    · simp only [h1, if_false, aget, ih h.2]
+      by_cases h2 : k'' = k'
+      · have : ¬ k = k' := fun e => h1 (h2.trans e.symm)
+        simp [h2, this]
+      · simp [h2]
+
+theorem ARel_nil {β : Type} (enc : β → PyVal) : ARel enc [] ([] : List (Str × β)) := ⟨[], rfl, by simp, fun _ => rfl⟩
+
+theorem ARel_lookup {β : Type} {enc : β → PyVal} {kvs : List (PyVal × PyVal)} {d : List (Str × β)} (h : ARel enc kvs d) (k : Str) :
+    dictLookup kvs (.str k) = (aget k d).map enc := by
+  obtain ⟨ks, rfl, _, h3⟩ := h
+  rw [dictLookup_encKVs, h3]
+
+theorem ARel_congr {β : Type} {enc : β → PyVal} {kvs : List (PyVal × PyVal)} {d d' : List (Str × β)} (h : ARel enc kvs d)
+    (he : ∀ k, aget k d = aget k d') : ARel enc kvs d' := by
+  obtain ⟨ks, h1, h2, h3⟩ := h
+  exact ⟨ks, h1, h2, fun k => (h3 k).trans (he k)⟩
+
+theorem ARel_set {β : Type} {enc : β → PyVal} {kvs : List (PyVal × PyVal)} {d : List (Str × β)} (h : ARel enc kvs d) (k : Str) (v : β) :
+    ARel enc (dictSet kvs (.str k) (enc v)) (aset k v d) := by
+  obtain ⟨ks, rfl, h2, h3⟩ := h
+  refine ⟨setK k v ks, dictSet_encKVs enc ks k v, nodup_setK k v ks h2, fun k' => ?_⟩
+  rw [aget_setK, aget_aset, h3]
+
+theorem ARel_erase {β : Type} {enc : β → PyVal} {kvs : List (PyVal × PyVal)} {d : List (Str × β)} (h : ARel enc kvs d) (k : Str) :
+    ARel enc (dictErase kvs (.str k)) (adel k d) := by
+  obtain ⟨ks, rfl, h2, h3⟩ := h
+  refine ⟨eraseK k ks, dictErase_encKVs enc ks k, nodup_eraseK k ks h2, fun k' => ?_⟩
+  rw [aget_eraseK _ _ _ h2, aget_adel, h3]
+
+theorem dictSet_absent' (kvs : List (PyVal × PyVal)) (k v : PyVal) (h : dictLookup kvs k = Option.none) :
+    kvs ++ [(k, v)] = dictSet kvs k v := by
+  induction kvs with
+  | nil => rfl
+  | cons p r ih =>
+    obtain ⟨k', x⟩ := p
+    simp only [dictLookup] at h
+    by_cases h1 : PyVal.eq k' k = true
+    · simp [h1] at h
+    · simp only [h1, if_false, Bool.false_eq_true] at h
+      simp only [List.cons_append, dictSet, h1, if_false, Bool.false_eq_true, ih h]
+
+/-! ## the visiting order -/
+
+theorem eq_plain_str (a b : Str) : PyRx.eq_plain (.str a) (.str b) = .ok (.bool (decide (a = b))) := by
+  simp only [PyRx.eq_plain, PyRt.eq, eq_str, pure_ok]
+  by_cases h : a = b <;> simp [h]
+
+theorem dedupM_strs (l acc : List Str) :
+    PyRx.dedupM PyRx.eq_plain (acc.map .str) (l.map .str) = .ok ((dedupAcc acc l).map .str) := by
+  induction l generalizing acc with
+  | nil => rfl
+  | cons x xs ih =>
+    simp only [List.map_cons, PyRx.dedupM, PyRx.memM_ok PyRx.eq_plain PyVal.str eq_plain_str, ok_bind, dedupAcc]
+    by_cases h : x ∈ acc
+    · simp only [h, decide_true, if_true]; exact ih acc
+    · simp only [h, decide_false, if_false, Bool.false_eq_true]
+      have := ih (acc ++ [x])
+      simpa using this
+
+theorem strsOf_strs (l : List Str) : PySet.strsOf (l.map .str) = some l := by
+  induction l with
+  | nil => rfl
+  | cons x xs ih => simp [PySet.strsOf, ih]
+
+theorem msg_keys_enc (fs : List (String × PyVal)) (doc : Doc)
+    (hh : lookupField fs "headers" = some (.list (encHdrs doc))) :
+    msg_keys (.obj "Message" fs) = .ok (.list (doc.names.map .str)) := by
+  simp only [msg_keys, msgHeaders, hh, pure_ok, encHdrs, Doc.names, List.map_map]
+  congr 2
+
+/-- `sorted(frozenset(parsed.keys()))` -/
+theorem sorted_keys (l : List Str) :
+    (do let a ← PyRx.set_of "frozenset" PyRx.eq_plain (.list (l.map .str)); PySet.sorted_ a) =
+      .ok (.list ((sortBy strLe (dedupAcc [] l)).map .str)) := by
+  have := dedupM_strs l []
+  simp only [List.map_nil] at this
+  simp only [PyRx.set_of, PyRx.setItems, iterate_list, ok_bind, this, pure_ok, PyRx.mkSet, PySet.sorted_, strsOf_strs]
+
+theorem mem_dedupAcc (l acc : List Str) (x : Str) : x ∈ dedupAcc acc l ↔ x ∈ acc ∨ x ∈ l := by
+  induction l generalizing acc with
+  | nil => simp [dedupAcc]
+  | cons y ys ih =>
+    simp only [dedupAcc]
+    by_cases h : y ∈ acc
+    · simp only [h, if_true, ih, List.mem_cons]
+      constructor
+      · rintro (h1 | h1) <;> simp [h1]
+      · rintro (h1 | h1 | h1)
+        · exact .inl h1
+        · exact .inl (h1 ▸ h)
+        · exact .inr h1
+    · simp only [h, if_false, ih, List.mem_append, List.mem_cons, List.not_mem_nil, or_false]
+      constructor
+      · rintro ((h1 | h1) | h1)
+        · exact .inl h1
+        · exact .inr (.inl h1)
+        · exact .inr (.inr h1)
+      · rintro (h1 | h1 | h1)
+        · exact .inl (.inl h1)
+        · exact .inl (.inr h1)
+        · exact .inr h1
+
+theorem nodup_dedupAcc (l acc : List Str) (h : acc.Nodup) : (dedupAcc acc l).Nodup := by
+  induction l generalizing acc with
+  | nil => exact h
+  | cons y ys ih =>
+    simp only [dedupAcc]
+    by_cases h1 : y ∈ acc
+    · simp only [h1, if_true]; exact ih acc h
+    · simp only [h1, if_false]
+      apply ih
+      rw [List.nodup_append]
+      exact ⟨h, by simp, fun a ha b hb => by simp at hb; subst hb; exact fun e => h1 (e ▸ ha)⟩
+
+/-- the visiting order is an enumeration of the distinct header names: C18's "for every order" theorems apply -/
+theorem orderOf_perm (doc : Doc) : (orderOf doc).Perm (Meta.dedup doc.names) := by
+  refine (ReqL.sortBy_perm strLe _).trans ?_
+  apply (List.perm_ext_iff_of_nodup (nodup_dedupAcc _ [] List.nodup_nil) (Meta.nodup_dedup _)).mpr
+  intro x
+  rw [mem_dedupAcc, Meta.mem_dedup]
+  simp
+
+theorem mem_orderOf (doc : Doc) (n : Str) (h : n ∈ orderOf doc) : n ∈ doc.names := by
+  have := (orderOf_perm doc).mem_iff.mp h
+  exact (Meta.mem_dedup _ _).mp this
+
 end Src
